@@ -13,6 +13,70 @@ CLAIMED = {
    "(scalars 0, 1, q-1, forced re-draws). Oracle needs no model: equal 32-byte keys or one of the two degenerate "
    "coincidences decided from the bytes on the wire. Sampling, not proof.",
    "Trusts the simulator's causality bookkeeping and the byte-level identity test for the two exemptions."),
+ "C02": ("exploration", "4 C02",
+   "Same simulated deployment with 1-3 configuration differences (password, identities incl. swaps and boundary "
+   "shifts, parameter set) and/or symbolic in-flight faults on one or both messages (18 fault kinds incl. coordinated "
+   "two-sided strategies, crash/restore in between). Oracle: no pair of finish() calls may return equal keys unless "
+   "both ends had identical views. Found the Ed25519 decoding defect (now fixed in /repo) on the pinned tree.",
+   "Exemptions (twin symmetric sessions receiving identical bytes; parameter differences that vanish for zero "
+   "scalars) are decided by the reference model; parameter differences are generated only in groups where accidental "
+   "coincidence is negligible."),
+ "C03": ("exploration", "4 C03",
+   "Every real node of every simulated run (fresh or restored any number of times, honest or substituted well-formed "
+   "inbound elements, real or independent-implementation peer) is shadowed step by step by an independent executable "
+   "specification: start() bytes and finish() key / ReflectionThwarted must equal the model's for the scalar the node "
+   "itself reports.", "The reference model is the definition; it is anchored at every check start to the library's "
+   "published vectors and to frozen constants of the four shipped sets."),
+ "C05": ("exploration", "4 C05",
+   "A simulated adversary delivers malformed element encodings (14 symbolic classes, random strings of every length, "
+   "dense sampling of all (y,sign) of toy curves and of 1-2 byte toy fields) to fresh and restored victims through "
+   "finish() and to bytes_to_element(); oracle = the model's strict decoder (only-if direction) and re-encoding "
+   "equality. Found four classes of wrongly accepted Ed25519 strings on the pinned tree (fixed in /repo).",
+   "Model strict decoder trusted; toy-curve runs execute the library's own Edwards source on replaced constants."),
+ "C06": ("exploration", "4 C06",
+   "1-3 victims (A/B/S, fresh or restored, every group kind) receive mis-labelled messages (own side, other flavour, "
+   "all 256 side-byte values stratified over the run index, missing label, empty message) and reflections of their own "
+   "element under the acceptable label, also in re-encoded/extended form; oracle from the statement (no key; OffSides "
+   "for A/B-labelled mismatches; ReflectionThwarted for the own element).", "Equality of the reflected element is "
+   "decided with the model's strict decoder."),
+ "C07": ("exploration", "4 C07",
+   "Seeded call histories of length <= 10 over 10 call symbols (incl. start with failing entropy, six kinds of "
+   "finish, serialize, restore-and-continue) on one instance chain, checked call by call against a specification "
+   "automaton that demands exactly what the statement fixes and is permissive where it is silent; distinct histories "
+   "of length <= 4 reached are counted.", "Sampling of histories, not the exhaustive enumeration the quantifier speaks of."),
+ "C08": ("exploration", "4 C08",
+   "Three twins with identical arguments and entropy stream - one with 0-6 persist/crash/recover cycles at generated "
+   "points, one serialized but never restored, one untouched - receive the same inbound bytes (valid, reflection of "
+   "the original message, wrong side, malformed, identity): same key or same exception class; serialize() draws no "
+   "entropy (seam and os.urandom tripwire), is repeatable, printable-ASCII JSON, JSON-equal along the chain.",
+   "Exception kind compared by class name."),
+ "C09": ("exploration", "4 C09",
+   "State persisted under (role, parameters) is recovered under every other role and under parameter sets differing "
+   "in one named way (other shipped set, other M/N/S seed, other generator, other modulus, other custom group); "
+   "oracle: raises with the named class, or - when nothing the role uses differs - returns an instance that derives "
+   "the twin's key and refuses the original message reflected. One open known finding (generator not fingerprinted).",
+   "Differences are judged on group constants and element bytes from the model, not on seeds; modulus/group "
+   "differences only in groups where fingerprint coincidences are negligible."),
+ "C10": ("exploration", "4 C10",
+   "Rolling upgrade/downgrade in the simulated deployment: sessions started by the reference implementation and "
+   "persisted by an independent encoder of the released format (random key order / whitespace) are resumed by the "
+   "real from_serialized() and must finish to the predicted key; rows written by the real code are parsed by a strict "
+   "decoder of the released format and resumed by the model; 12 frozen rows of the pinned tree finish to frozen keys.",
+   "The model encoder/decoder is the released format; validated against the frozen rows at every start."),
+ "C11": ("exploration", "4 C11",
+   "Entropy accounting over simulated histories (only start() draws, only from the seam; tripwire on os.urandom / "
+   "random._urandom), range and provenance of the scalar under adversarial streams (boundary values, forced "
+   "re-draws, stuck RNG), and a seam sweep: ALL first-round answers of the entropy seam (and all second-round answers "
+   "under sampled rejected prefixes) for seeded ranges of width <= 65535, for random_scalar and for start() on small "
+   "groups, counting answers per returned value (equal, non-zero, acceptance >= 1/2).",
+   "The sweep is a bounded enumeration inside a run over one seam; ranges are sampled, not all widths <= 2^16."),
+ "C16": ("exploration", "4 C16",
+   "Worlds of 2-8 concurrent sessions (mixed roles, parameter sets incl. several custom sets over one shared group "
+   "object) run under two schedules - cooperative interleavings of API calls, or one real thread per session under a "
+   "baton scheduler with PRNG-chosen pre-emption at line events in library frames - in a forked child of a pristine "
+   "process; every session is re-run alone in its own freshly forked pristine child; messages, keys, blobs must be "
+   "identical and shared group/parameter objects unchanged.",
+   "Pre-emption granularity is one Python line inside spake2 frames."),
 }
 
 NOT_YET = {k: "check under construction in this session (planned per DESIGN.md section 4); not claimed until it runs clean" for k in ["C02","C03","C05","C06","C07","C08","C09","C10","C11","C16"] if k not in CLAIMED}
